@@ -53,6 +53,7 @@ NEXT Next
 CONSTANTS
   TplLo = %(lo)d
   TplHi = %(hi)d
+  SecondTpls = {%(second)s}
   MaxStmts = %(stmts)d
   MaxMods1 = %(m1)d
   MaxMods2 = %(m2)d
@@ -66,10 +67,14 @@ CHECK_DEADLOCK FALSE
 NT = 38
 
 
-def write_cfg(ctx, name, stmts, m1, m2, nn=5, lo=1, hi=NT, mod=1, rem=0, invs=INVS, emit=False):
+ALL_TPLS = tuple(range(1, NT + 1))
+PROBE_TPLS = (1, 10, 13, 21, 35)     # a = bb / decorated def / one-line class / for with suite / call with keyword
+
+
+def write_cfg(ctx, name, stmts, m1, m2, nn=5, lo=1, hi=NT, mod=1, rem=0, invs=INVS, emit=False, second=ALL_TPLS):
     p = os.path.join(ctx.tmp, name)
     with open(p, 'w') as f:
-        f.write(CFG % dict(lo=lo, hi=hi, stmts=stmts, m1=m1, m2=m2, nn=nn, mod=mod, rem=rem,
+        f.write(CFG % dict(lo=lo, hi=hi, second=', '.join(map(str, second)), stmts=stmts, m1=m1, m2=m2, nn=nn, mod=mod, rem=rem,
                            invs='\n'.join('INVARIANT %s' % i for i in invs),
                            emit='CONSTRAINT Emit' if emit else ''))
     return p
@@ -179,6 +184,12 @@ def names_event(s, toks_ref, counts, blocked, files1):
     """The three get_names() enumerations as "names" events + "name" events for the full one."""
     out, metas = [], []
     full = None
+    shape = 'enumeration'
+    if files1 is not None:       # text of a buffer parso could not parse
+        import re
+        shape += '/parso-error-nodes'
+        if re.search(r'(^|[\r\n])\f[^\r\n]*:[ \t]*(#[^\r\n]*)?(\r\n|\r|\n)\t', files1):
+            shape = 'enumeration/formfeed-tab-indent'
     for label, kw, flt in (('all', dict(definitions=True, references=True), lambda b: True),
                            ('defs', dict(definitions=True, references=False), lambda b: b),
                            ('refs', dict(definitions=False, references=True), lambda b: not b)):
@@ -188,7 +199,7 @@ def names_event(s, toks_ref, counts, blocked, files1):
             continue
         got = [{'line': n.line, 'col': n.column, 'isdef': bool(n.is_definition())} for n in r[1]]
         out.append({'ev': 'names', 'f': 1, 'toks': [t for t in toks_ref if flt(t['binds'])], 'got': got})
-        metas.append({'how': 'get_names:' + label, 'shape': 'enumeration', 'file': None, 'name': None})
+        metas.append({'how': 'get_names:' + label, 'shape': shape, 'file': None, 'name': None})
         if label == 'all':
             full = r[1]
     return out, metas, full
@@ -217,18 +228,23 @@ def replay_case(case):
         return out
     path = os.path.join('/nonexistent_verif_project', BUF)
     s = jutil.script(text, path=path)
-    if L.has_error_nodes(s._module_node):
+    errnodes = L.has_error_nodes(s._module_node)
+    if errnodes and case['modelled']:
         out['problems'].append('parso cannot parse the rendered case (error nodes)')
         return out
+    if not errnodes and not case['modelled']:
+        out['drift'].append({'kind': 'unmodelled-but-parsed'})
     # Design tree shape vs parso
     anc = L.parso_anc(s._module_node)
     danc = [(n['line'], n['col'], n['anc']) for n in case['names']]
-    if [(a, b, list(c)) for a, b, c in anc] != danc:
+    if case['modelled'] and [(a, b, list(c)) for a, b, c in anc] != danc:
         out['drift'].append({'kind': 'tree-shape', 'design': danc, 'parso': anc})
     counts, blocked = {}, {}
-    evs, metas, full = names_event(s, ref, counts, blocked, None)
+    evs, metas, full = names_event(s, ref, counts, blocked, text if errnodes else None)
+    if not case['modelled']:
+        counts['unmodelled_cases'] = 1
     # Design's get_names() vs the real one
-    if full is not None:
+    if full is not None and case['modelled']:
         code = []
         for n in full:
             r = jutil.safe(lambda: [n.line, n.column, jutil.enc(n.name), bool(n.is_definition()),
@@ -297,11 +313,14 @@ def corpus_variant(arg):
     from harness.core import REPO
     bpath = os.path.join(os.path.dirname(path), '__c17buf__.py')     # virtual: never written
     s = jedi.Script(text, path=bpath, project=jutil.project(REPO), environment=jutil.env())
-    if L.has_error_nodes(s._module_node):
-        out['skipped'] = 'parso-error-nodes'
-        return out
+    errnodes = L.has_error_nodes(s._module_node)
+    if errnodes:
+        import parso
+        if L.has_error_nodes(parso.parse(win, version='3.12')):
+            out['skipped'] = 'parso-error-nodes-in-original'     # syntax outside parso's grammar
+            return out
     counts, blocked = {}, {}
-    evs, metas, full = names_event(s, ref, counts, blocked, None)
+    evs, metas, full = names_event(s, ref, counts, blocked, text if errnodes else None)
     header, qev, qmeta, c2, b2 = query_all(s, text, bpath, [REPO], ids, L.ident_tokens(text)[1], rng, npos)
     if full is not None:
         if len(full) > 400:
@@ -429,7 +448,7 @@ def project_scenario(arg):
 
 
 # ---------------------------------------------------------------- TLC emission in parallel partitions
-def emit_cases(ctx, label, stmts, m1, m2, mod, rem, parts, timeout):
+def emit_cases(ctx, label, stmts, m1, m2, mod, rem, parts, timeout, second=ALL_TPLS):
     bounds = []
     step = (NT + parts - 1) // parts
     for lo in range(1, NT + 1, step):
@@ -440,7 +459,7 @@ def emit_cases(ctx, label, stmts, m1, m2, mod, rem, parts, timeout):
     def work(i, lo, hi):
         try:
             cfg = write_cfg(ctx, 'emit_%s_%d.cfg' % (label, i), stmts, m1, m2, lo=lo, hi=hi, mod=mod, rem=rem,
-                            invs=[], emit=True)
+                            invs=[], emit=True, second=second)
             results[i] = run_tlc('Positions', cfg, workers=1, timeout=timeout)
         except BaseException as e:  # noqa
             errors.append(e)
@@ -544,7 +563,8 @@ def run(ctx):
     quick = ctx.quick
     # ---- 1. Design |= Reference, exhaustive
     stmts, m1, m2 = (2, 1, 0) if quick else (2, 2, 1)
-    cfg = write_cfg(ctx, 'mc.cfg', stmts, m1, m2)
+    second = ALL_TPLS if quick else PROBE_TPLS
+    cfg = write_cfg(ctx, 'mc.cfg', stmts, m1, m2, second=second)
     if os.environ.get('VERIF_C17_DEV_SKIP_MC'):      # development aid for mutation experiments only
         cfg = write_cfg(ctx, 'mc.cfg', 1, 0, 0)
     res = run_tlc('Positions', cfg, workers=16, timeout=1500)
@@ -552,7 +572,7 @@ def run(ctx):
     if res.violated:
         raise MachineryError('Positions.tla: Design violates Reference (%s); replay the counterexample, then model '
                              'the code as it is / record the finding:\n%s' % (res.violated, res.trace[-1:]))
-    if res.distinct < (3000 if quick else 100000) and not os.environ.get('VERIF_C17_DEV_SKIP_MC'):
+    if res.distinct < (3000 if quick else 80000) and not os.environ.get('VERIF_C17_DEV_SKIP_MC'):
         raise MachineryError('vacuity: only %d states' % res.distinct)
     ctx.coverage['exhaustive'] = True
     ctx.coverage['templates'] = NT
@@ -587,7 +607,7 @@ def run(ctx):
         cs = emit_cases(ctx, 'quick', 2, 1, 0, mod, ctx.seed % mod, 8, 900)
     else:
         mod = 11
-        cs = emit_cases(ctx, 'thorough', 2, 2, 1, mod, ctx.seed % mod, 13, 3000)
+        cs = emit_cases(ctx, 'thorough', 2, 2, 1, mod, ctx.seed % mod, 13, 3000, second=PROBE_TPLS)
     if len(cs) < (500 if quick else 10000):
         raise MachineryError('too few cases emitted: %d' % len(cs))
     ctx.log('replaying %d TLC cases' % len(cs))
